@@ -15,6 +15,9 @@ ASSUMPTIONS = [
     'a failing Python assert is the observable AssertionError <-> model None',
     'Python dictionaries keyed by grid points modelled as key-sorted association lists',
     'Lagrange-interpolating containers and constant-subtraction slices are not modelled (outside the property)',
+    'container objects: the attributes left_point / right_point / max_level / minimal_step_width and the slices of every container are '
+    'observed after set_grid and compared exactly with the object-level model (Model/RombergContainers.v, entry sub 5)',
+    'histories: the model is a pure function of the request; every step of a history on one object is compared with it',
     gen.ASSUMPTION,
 ]
 
@@ -52,14 +55,78 @@ def rand_tree(rng, depth, p, full=False):
     return out
 
 
-def interval(rng):
+SCALES = [0, 0, 0, 0, 0, -40, -20, -7, 10, 30]     # axis (d): the whole interval scaled by 2^s (compared purely relatively)
+
+
+def deep_full_tree(rng, depth, p=0.3):
+    """full binary tree (0 or 2 children) that certainly reaches level `depth`: a spine of refined nodes, side branches with prob. p"""
+    out = []
+
+    def rec(lo, hi, lev, spine):
+        mid = (lo + hi) // 2
+        kids = lev < depth and (spine or rng.random() < p)
+        left_spine = spine and rng.random() < 0.5
+        if kids:
+            rec(lo, mid, lev + 1, spine and left_spine)
+        out.append((mid, lev))
+        if kids:
+            rec(mid, hi, lev + 1, spine and not left_spine)
+    rec(0, 2 ** depth, 1, True)
+    return out
+
+
+def tree_to_case(rng, t, depth, kind):
+    a, L = interval(rng)
+    grid = [a] + [a + L * k / 2 ** depth for k, _ in t] + [a + L]
+    return dict(kind=kind, grid=[[x.numerator, x.denominator] for x in grid], levels=[0] + [l for _, l in t] + [0])
+
+
+def one_child_points(grid, levels):
+    """inner points of a refinement tree (given in order with their levels) that have exactly one child"""
+    bad = []
+
+    def rec(lo, hi):          # inner index range [lo, hi)
+        if lo >= hi:
+            return
+        sub = levels[lo:hi]
+        i = lo + sub.index(min(sub))
+        left, right = i > lo, i + 1 < hi
+        if left != right:
+            bad.append(grid[i])
+        rec(lo, i)
+        rec(i + 1, hi)
+    rec(1, len(levels) - 1)
+    return bad
+
+
+def interval(rng, scaled=True):
     a = rng.choice([F(0), F(0), F(0), F(-1), F(1, 2), F(2), F(-3, 4), F(5)])
     L = rng.choice([F(1), F(1), F(1), F(2), F(1, 2), F(3), F(1, 4), F(5, 2)])
+    if scaled:
+        s = rng.choice(SCALES)
+        if s:
+            sc = F(2) ** s
+            a, L = a * sc, L * sc
+            if rng.random() < 0.3:          # far from the origin relative to the length (ratio 2^10)
+                a = a + L * 1024
     return a, L
 
 
-def tree_case(rng, tier, kind=None, full=False):
+def scale_key(a, L):
+    import math
+    e = math.floor(math.log2(float(L)))
+    far = 'far' if L and abs(a) >= 512 * L else 'near'
+    return 'len~2^%s,%s' % ('<=-20' if e <= -20 else ('-19..-3' if e < -2 else ('-2..2' if e <= 2 else ('3..19' if e < 20 else '>=20'))), far)
+
+
+def tree_case(rng, tier, kind=None, full=False, depth=None, p=None):
     maxd = 6 if tier == 'quick' else 7
+    if depth is not None:       # sizes beyond the usual ones (axis h): the caller fixes depth and branching probability
+        t = rand_tree(rng, depth, p, full=full)
+        a, L = interval(rng)
+        grid = [a] + [a + L * k / 2 ** depth for k, _ in t] + [a + L]
+        levels = [0] + [l for _, l in t] + [0]
+        return dict(kind=kind or ('complete' if p >= 1.0 else 'valid'), grid=[[x.numerator, x.denominator] for x in grid], levels=levels)
     depth = rng.choice([1, 2, 2, 3, 3, 4, 4, 5, 5, maxd])
     r = rng.random()
     if kind is None:
@@ -137,6 +204,36 @@ def _enum(cls, v):
     return cls(v)
 
 
+def _opt(x, conv):
+    return [] if x is None else [conv(x)]
+
+
+def _containers(eg):
+    """public attributes of the container objects: (left_point, right_point, max_level, minimal_step_width, slices)"""
+    return [[_opt(ct.left_point, sx.rat), _opt(ct.right_point, sx.rat), _opt(ct.max_level, int), _opt(ct.minimal_step_width, sx.rat),
+             [[sx.rat(sl.left_point), sx.rat(sl.right_point)] for sl in ct.slices]] for ct in eg.slice_containers]
+
+
+def containers_why(conts):
+    """property predicate on the implementation alone: every container spans exactly its slices"""
+    for i, (lp, rp, ml, ms, sl) in enumerate(conts):
+        if not sl:
+            return 'container %d has no slices' % i
+        if lp != [sl[0][0]] or rp != [sl[-1][1]]:
+            return ('container %d: left_point/right_point = %s/%s but its slices span [%s, %s]'
+                    % (i, lp[0] if lp else None, rp[0] if rp else None, sl[0][0], sl[-1][1]))
+        if any(sl[k][1] != sl[k + 1][0] for k in range(len(sl) - 1)):
+            return 'container %d: slices are not adjacent' % i
+        if ms != [min(r - l for l, r in sl)]:
+            return 'container %d: minimal_step_width %s but the slices have min width %s' % (i, ms, min(r - l for l, r in sl))
+    return None
+
+
+def model_containers(mc):
+    return [[[sx.q(x) for x in c[0]], [sx.q(x) for x in c[1]], list(c[2]), [sx.q(x) for x in c[3]],
+             [[sx.q(l), sx.q(r)] for l, r in c[4]]] for c in mc]
+
+
 def impl_sliced(case):
     from sparseSpACE.Extrapolation import ExtrapolationGrid, SliceGrouping, SliceVersion, SliceContainerVersion
     from sparseSpACE.Grid import GlobalRombergGrid
@@ -150,7 +247,8 @@ def impl_sliced(case):
             eg.set_grid(list(grid), list(levels))
             w = eg.get_weights()
             return dict(grid=[sx.rat(x) for x in eg.get_grid()], levels=[int(l) for l in eg.get_grid_levels()],
-                        sizes=[len(ct.slices) for ct in eg.slice_containers], weights=[sx.rat(x) for x in w])
+                        sizes=[len(ct.slices) for ct in eg.slice_containers], weights=[sx.rat(x) for x in w],
+                        containers=_containers(eg))
         res.append(_guard(one))
     # integrate() on a re-used object: set_grid must invalidate the cached weights
     def reuse():
@@ -260,8 +358,8 @@ def impl_global(case):
                     gg = GlobalBalancedRombergGrid(a, b)
                 else:
                     g_, s_, c_ = case['variant']
-                    gg = GlobalRombergGrid(a, b, slice_grouping=SliceGrouping(g_), slice_version=SliceVersion(s_),
-                                           container_version=SliceContainerVersion(c_))
+                    gg = GlobalRombergGrid(a, b, do_cache=bool(case.get('do_cache', True)), slice_grouping=SliceGrouping(g_),
+                                           slice_version=SliceVersion(s_), container_version=SliceContainerVersion(c_))
             else:   # the same object re-used for another domain
                 gg.a, gg.b = a, b
                 import numpy as np
@@ -305,6 +403,483 @@ def impl_factory(case):
                 coeff=[sx.rat(fac.get_extrapolation_coefficient(m, j)) for j in range(m + 1)])
 
 
+
+# ----------------------------------------------------------------------------------------------------- histories on one object
+OBSERVERS = ['weights_twice', 'integrate', 'getters', 'scribble', 'container_getters']
+
+
+def _mkargs(grid, levels, argtype):
+    """the argument objects handed to set_grid: lists, tuples, or a numpy array for the grid (numpy LEVELS raise AttributeError
+    '.index' in compute_support_sequence on the unchanged tree: excluded)"""
+    if argtype == 'tuple':
+        return tuple(grid), tuple(levels)
+    if argtype == 'npgrid':
+        import numpy as np
+        return np.array(grid, dtype=float), list(levels)
+    return list(grid), list(levels)
+
+
+def impl_hist(case):
+    """2-4 set_grid requests on ONE (or two interleaved) ExtrapolationGrid object(s), public observer calls between the requests,
+    argument objects snapshotted and (sometimes) re-used for another object."""
+    from sparseSpACE.Extrapolation import ExtrapolationGrid, SliceGrouping, SliceVersion, SliceContainerVersion
+    from sparseSpACE.Function import Polynomial1d
+    objs = []
+    for (g, s, c, f) in case['variants']:
+        objs.append(ExtrapolationGrid(slice_grouping=SliceGrouping(g), slice_version=SliceVersion(s),
+                                      container_version=SliceContainerVersion(c), force_balanced_refinement_tree=bool(f)))
+    poly = Polynomial1d([3, 2])
+    kept = {}          # step index -> argument objects (for re-use by a later step)
+    out = []
+    for k, st in enumerate(case['steps']):
+        eg = objs[st['obj']]
+        grid = _fl(st['grid'])
+        levels = list(st['levels'])
+        if st.get('reuse_args_of') is not None and st['reuse_args_of'] in kept:
+            ga, la = kept[st['reuse_args_of']]
+        else:
+            ga, la = _mkargs(grid, levels, st['argtype'])
+        kept[k] = (ga, la)
+
+        def one():
+            eg.set_grid(ga, la)
+            w = eg.get_weights()
+            o = dict(weights=[sx.rat(float(x)) for x in w])
+            for ob in st['obs']:
+                if ob == 'weights_twice':
+                    o['w2'] = [sx.rat(float(x)) for x in eg.get_weights()]
+                elif ob == 'integrate':
+                    v = eg.integrate(poly)
+                    o['integrate'] = [sx.rat(float(v)), sx.rat(float(eg.get_absolute_error()))]
+                elif ob == 'getters':
+                    o['getters'] = [[sx.rat(float(x)) for x in eg.get_grid()], [int(l) for l in eg.get_grid_levels()]]
+                elif ob == 'scribble':        # overwrite what get_weights returned
+                    for i in range(len(w)):
+                        w[i] = 12345.0
+                elif ob == 'container_getters':
+                    for ct in eg.slice_containers:
+                        ct.get_grid(); ct.get_grid_levels(); ct.get_normalized_grid_levels(); ct.size(); ct.to_string()
+                    eg.get_step_width(2)
+            o['final'] = [sx.rat(float(x)) for x in eg.get_weights()]
+            o['grid'] = [sx.rat(float(x)) for x in eg.get_grid()]
+            o['levels'] = [int(l) for l in eg.get_grid_levels()]
+            o['sizes'] = [len(ct.slices) for ct in eg.slice_containers]
+            o['containers'] = _containers(eg)
+            return o
+        r = _guard(one)
+        # argument immutability: the objects handed over must still hold what they held
+        try:
+            unchanged = [float(x) for x in ga] == grid and [int(x) for x in la] == levels
+        except Exception:
+            unchanged = False
+        out.append(dict(res=r, args_unchanged=unchanged))
+    return out
+
+
+def gen_hist(rng, tier):
+    nobj = rng.choice([1, 1, 2])
+    variants = [list(rng.choice(ALL_VARIANTS)) for _ in range(nobj)]
+    steps = []
+    nsteps = rng.choice([2, 3, 3, 4])
+    for k in range(nsteps):
+        r = rng.random()
+        prev = steps[-1] if steps else None
+        c = None
+        reuse = None
+        if prev is not None and r < 0.2:
+            # another tree with the SAME number of points: the mirror image of the previous grid
+            g = [F(*x) for x in prev['grid']]
+            c = dict(kind=prev['kind'], grid=[[y.numerator, y.denominator] for y in [g[0] + (g[-1] - x) for x in reversed(g)]],
+                     levels=list(reversed(prev['levels'])))
+        elif prev is not None and r < 0.35:
+            # the same tree on another interval (scaled / shifted)
+            g = [F(*x) for x in prev['grid']]
+            a, L = interval(rng)
+            c = dict(kind=prev['kind'], grid=[[y.numerator, y.denominator] for y in [a + (x - g[0]) / (g[-1] - g[0]) * L for x in g]],
+                     levels=list(prev['levels']))
+        elif prev is not None and r < 0.5:
+            # exactly the previous request again, with the SAME argument objects (possibly for the other object)
+            c = dict(kind=prev['kind'], grid=[list(x) for x in prev['grid']], levels=list(prev['levels']))
+            reuse = len(steps) - 1
+        else:
+            c = tree_case(rng, tier)
+            if rng.random() < 0.12:
+                c = malform(rng, c)
+        obs = [o for o in OBSERVERS if rng.random() < 0.4]
+        argtype = steps[reuse]['argtype'] if reuse is not None else rng.choice(['list', 'list', 'tuple', 'npgrid'])
+        steps.append(dict(obj=rng.randrange(nobj), kind=c['kind'], grid=c['grid'], levels=c['levels'],
+                          argtype=argtype, obs=obs, reuse_args_of=reuse))
+    return dict(kind='hist', variants=variants, steps=steps)
+
+
+def check_hist(chk, cases, impl=None):
+    if impl is None:
+        impl = run_impl(impl_hist, cases, limit=300)
+    mcases, idx = [], []
+    for i, c in enumerate(cases):
+        for k, st in enumerate(c['steps']):
+            v = c['variants'][st['obj']]
+            mcases.append((5, [v[0], v[1], v[2], v[3], [F(*x) for x in st['grid']], st['levels']]))
+            idx.append((i, k))
+    mres = run_model(11, mcases, nproc=16)
+    by = {}
+    for (i, k), mr in zip(idx, mres):
+        by[(i, k)] = mr
+    keys, samples = [], []
+    for i, c in enumerate(cases):
+        st_, r = impl[i]
+        chk.count('hist:objects=%d,steps=%d' % (len(c['variants']), len(c['steps'])))
+        if st_ != 'ok':
+            chk.violation('corr:C11/history', 'impl-worker-failed', {'status': st_}, c, dict(impl=str(r)), failing_input=False)
+            continue
+        ok_all = True
+        for k, st in enumerate(c['steps']):
+            v = tuple(c['variants'][st['obj']])
+            hist = dict(c, steps=c['steps'][:k + 1])       # the history up to the failing step replays alone
+            mr = by[(i, k)]
+            ir = r[k]['res']
+            sig = dict(variant_sig(v), step=k, argtype=st['argtype'], reused_args=st.get('reuse_args_of') is not None)
+            for ob in st['obs']:
+                chk.count('hist:observer=' + ob)
+            chk.count('hist:argtype=' + st['argtype'] + (',same-objects-again' if st.get('reuse_args_of') is not None else ''))
+            chk.count('hist:step-kind=' + st['kind'])
+            if not r[k]['args_unchanged']:
+                chk.violation('oracle:argument_immutable', 'argument-mutated', dict(sig), hist,
+                              dict(why='set_grid / get_weights / observers changed the grid or level object handed to set_grid'))
+                ok_all = False
+                break
+            if isinstance(mr, tuple):
+                chk.violation('corr:C11/history', 'model-driver-error', {}, hist, dict(model=str(mr)), failing_input=False)
+                ok_all = False
+                break
+            if ir[0] == 'exc':
+                chk.violation('oracle:no_exception', 'impl-exception', dict(sig, exc=ir[1]), hist, dict(impl=ir, model=str(mr)[:300]))
+                ok_all = False
+                break
+            if ir[0] == 'assert' or sx.is_err(mr):
+                if not (ir[0] == 'assert' and sx.is_err(mr)):
+                    fi = st['kind'] in ('valid', 'complete') and ir[0] == 'assert'
+                    chk.violation('corr:C11/history', 'assert-disagreement', dict(sig, impl=ir[0]), hist,
+                                  dict(impl=str(ir)[:300], model=str(mr)[:300]), failing_input=fi)
+                    ok_all = False
+                    break
+                chk.count('hist:step-rejected-by-both')
+                continue
+            chk.traces += 1
+            o = ir[1]
+            mgrid = [sx.q(x) for x in mr[0]]
+            mw = [sx.q(x) for x in mr[3]]
+            sig = dict(variant_sig(v, o['sizes']), step=k, argtype=st['argtype'], reused_args=st.get('reuse_args_of') is not None)
+            tol = tol_of(o['grid'])
+            valid = st['kind'] in ('valid', 'complete')
+            consistent = sig['container'] == 'ROMBERG_DEFAULT' or not sig['multi_slice_container']
+            why, what = (None, None)
+            if valid and consistent:
+                why, what = moments_why(o['grid'], o['final'], sliced_degree(o['levels'], v))
+            if not why and valid:
+                cw = containers_why(o['containers'])
+                if cw:
+                    why, what = cw, 'containers'
+            # observers must not change the state, and must agree with each other
+            if not why and o['final'] != o['weights']:
+                why, what = 'get_weights after the observer calls %s differs from get_weights before them' % st['obs'], 'observer'
+            if not why and 'w2' in o and o['w2'] != o['weights']:
+                why, what = 'two consecutive get_weights calls differ', 'observer'
+            if not why and 'getters' in o and (o['getters'][0] != o['grid'] or o['getters'][1] != o['levels']):
+                why, what = 'get_grid / get_grid_levels changed between two calls', 'observer'
+            if not why and 'integrate' in o and valid and consistent:
+                a_, b_ = o['grid'][0], o['grid'][-1]
+                exact = 3 * (b_ - a_) + (b_ * b_ - a_ * a_)
+                scale = 3 + 2 * max(abs(a_), abs(b_))
+                if abs(o['integrate'][0] - exact) > 100 * tol * scale or abs(o['integrate'][1] - abs(o['integrate'][0] - exact)) > 100 * tol * scale:
+                    why, what = ('integrate(3+2x) = %.15g (reported error %.3g) but the integral over [%s,%s] is %s'
+                                 % (float(o['integrate'][0]), float(o['integrate'][1]), a_, b_, exact)), 'integrate'
+            diff = []
+            if mgrid != o['grid']:
+                diff.append('grid')
+            if mr[1] != o['levels']:
+                diff.append('levels')
+            if mr[2] != o['sizes']:
+                diff.append('container sizes')
+            if not close(mw, o['final'], tol):
+                diff.append('weights')
+            if model_containers(mr[5]) != o['containers']:
+                diff.append('container attributes')
+            if why:
+                chk.violation('oracle:history_consistent', 'history-step-inconsistent', dict(sig, what=what), hist,
+                              dict(why=why, weights=[float(w) for w in o['final']][:40], model_weights=[float(w) for w in mw][:40]))
+            if diff:
+                chk.violation('corr:C11/history', 'history-step-differs', dict(sig, observable=','.join(diff)), hist,
+                              dict(differs=diff, property_predicate=why or 'holds on this step',
+                                   impl=dict(grid=[str(x) for x in o['grid']][:40], sizes=o['sizes'][:40], weights=[float(w) for w in o['final']][:40]),
+                                   model=dict(grid=[str(x) for x in mgrid][:40], sizes=mr[2][:40], weights=[float(w) for w in mw][:40])),
+                              failing_input=bool(why))
+            if why or diff:
+                ok_all = False
+                break
+        if ok_all:
+            keys.append(json_key_any(c))
+            if len(samples) < 2 and len(c['steps']) >= 3:
+                samples.append(dict(variants=[variant_sig(tuple(v)) for v in c['variants']],
+                                    steps=[dict(obj=st['obj'], points=len(st['grid']), kind=st['kind'], argtype=st['argtype'], observers=st['obs'],
+                                                same_argument_objects_as_step=st.get('reuse_args_of')) for st in c['steps']]))
+    chk.record_cases(len(mcases), keys, 'histories on ONE ExtrapolationGrid object (or two interleaved ones): 2-4 set_grid requests with different '
+                     'trees / the mirrored tree of equal size / the same tree on another interval / the same argument objects again / malformed '
+                     'requests, lists / tuples / numpy grid arrays, public observer calls between the requests (get_weights twice, integrate, '
+                     'getters, container getters, overwriting the returned weight list); every step compared with the model (containers '
+                     'with their attributes included) and the oracle, arguments checked for immutability; non-trivial = whole history agreed',
+                     samples)
+
+
+def json_key_any(c):
+    import json
+    return json.dumps(c, sort_keys=True, default=str)
+
+
+# ----------------------------------------------------------------------------------------------------- shared state: tree singleton, balanced grid re-use
+def impl_shared(case):
+    """ONE process, objects alive side by side: a BalancedExtrapolationGrid object re-used for several trees, GridBinaryTree wrappers
+    (the class is a singleton: every wrapper shares one instance) and an ExtrapolationGrid with forced balancing (uses the singleton too)."""
+    from sparseSpACE.Extrapolation import (BalancedExtrapolationGrid, GridBinaryTree, ExtrapolationGrid, SliceGrouping, SliceVersion,
+                                           SliceContainerVersion)
+    bg = BalancedExtrapolationGrid()
+    trees = [GridBinaryTree(), GridBinaryTree()]
+    g_, s_, c_ = case['variant']
+    eg = ExtrapolationGrid(slice_grouping=SliceGrouping(g_), slice_version=SliceVersion(s_), container_version=SliceContainerVersion(c_),
+                           force_balanced_refinement_tree=True)
+    trees[0].instance.use_caching = bool(case.get('use_caching'))
+    out = []
+    try:
+        for st in case['steps']:
+            grid = _fl(st['grid'])
+            levels = list(st['levels'])
+            ga, la = list(grid), list(levels)
+
+            def one():
+                if st['op'] == 'balanced':
+                    bg.set_grid(ga, la)
+                    w = bg.get_weights()
+                    w2 = bg.get_weights()
+                    return dict(weights=[sx.rat(float(x)) for x in w], again=[sx.rat(float(x)) for x in w2],
+                                grid=[sx.rat(float(x)) for x in bg.get_grid()], levels=[int(l) for l in bg.get_grid_levels()])
+                if st['op'] == 'tree':
+                    t = trees[st['wrapper']]
+                    t.init_tree(ga, la)
+                    if case.get('use_caching'):
+                        # with the (private, non-default) use_caching flag get_grid() BEFORE force_full_tree_invariant caches the
+                        # unforced grid and the forcing becomes a no-op on the unchanged tree: the getters are not called here
+                        g0, l0 = None, None
+                    else:
+                        g0 = [sx.rat(float(x)) for x in t.get_grid()]
+                        l0 = [int(l) for l in t.get_grid_levels()]
+                    t.force_full_tree_invariant()
+                    if st.get('force_twice'):
+                        t.force_full_tree_invariant()
+                    other = trees[1 - st['wrapper']]
+                    return dict(g0=g0, l0=l0, g1=[sx.rat(float(x)) for x in t.get_grid()], l1=[int(l) for l in t.get_grid_levels()],
+                                other_g1=[sx.rat(float(x)) for x in other.get_grid()])
+                eg.set_grid(ga, la)
+                w = eg.get_weights()
+                return dict(weights=[sx.rat(float(x)) for x in w], grid=[sx.rat(float(x)) for x in eg.get_grid()],
+                            levels=[int(l) for l in eg.get_grid_levels()], sizes=[len(ct.slices) for ct in eg.slice_containers],
+                            containers=_containers(eg))
+            r = _guard(one)
+            out.append(dict(res=r, args_unchanged=(ga == grid and la == levels)))
+    finally:
+        trees[0].instance.use_caching = False
+    return out
+
+
+def gen_shared(rng, tier):
+    steps = []
+    for k in range(rng.choice([3, 4, 5, 6])):
+        op = rng.choice(['balanced', 'tree', 'tree', 'force_eg'])
+        if op == 'balanced':
+            c = tree_case(rng, tier, kind='full', full=True) if rng.random() < 0.85 else tree_case(rng, tier, kind='valid')
+            if c['kind'] == 'valid':
+                c['kind'] = 'maybe-unbalanced'
+        else:
+            c = tree_case(rng, tier)
+        same_op = [st for st in steps if st['op'] == op]
+        if same_op and rng.random() < 0.4:
+            # the mirrored tree of the last request to the SAME object: same number of points, same interval, other tree
+            # (or the identical request again when the tree is symmetric)
+            prev = same_op[-1]
+            pg = [F(*x) for x in prev['grid']]
+            c = dict(kind=prev['kind'], grid=[[y.numerator, y.denominator] for y in [pg[0] + (pg[-1] - x) for x in reversed(pg)]],
+                     levels=list(reversed(prev['levels'])))
+        if len(c['grid']) < 3:
+            c = tree_case(rng, tier, kind='full', full=True)
+        steps.append(dict(op=op, kind=c['kind'], grid=c['grid'], levels=c['levels'], wrapper=rng.randrange(2), force_twice=rng.random() < 0.3))
+    return dict(kind='shared', variant=list(rng.choice([(g, sv, c) for g in (1, 2, 3) for sv in (1, 2) for c in (1, 1, 4)])),
+                use_caching=rng.random() < 0.3, steps=steps)
+
+
+def check_shared(chk, cases, impl=None):
+    if impl is None:
+        impl = run_impl(impl_shared, cases, limit=300)
+    mcases, idx = [], []
+    for i, c in enumerate(cases):
+        for k, st in enumerate(c['steps']):
+            g = [F(*x) for x in st['grid']]
+            if st['op'] == 'balanced':
+                mcases.append((1, [g, st['levels']]))
+            elif st['op'] == 'tree':
+                mcases.append((2, [g, st['levels']]))
+            else:
+                v = c['variant']
+                mcases.append((5, [v[0], v[1], v[2], 1, g, st['levels']]))
+            idx.append((i, k))
+    mres = run_model(11, mcases, nproc=16)
+    by = dict(zip(idx, mres))
+    keys = []
+    for i, c in enumerate(cases):
+        st_, r = impl[i]
+        chk.count('shared:use_caching=%s' % bool(c.get('use_caching')))
+        if st_ != 'ok':
+            chk.violation('corr:C11/shared', 'impl-worker-failed', {'status': st_}, c, dict(impl=str(r)), failing_input=False)
+            continue
+        good = True
+        for k, st in enumerate(c['steps']):
+            hist = dict(c, steps=c['steps'][:k + 1])
+            mr = by[(i, k)]
+            ir = r[k]['res']
+            sig = dict(op=st['op'], step=k, use_caching=bool(c.get('use_caching')))
+            chk.count('shared:op=' + st['op'])
+            g = [F(*x) for x in st['grid']]
+            if not r[k]['args_unchanged']:
+                chk.violation('oracle:argument_immutable', 'argument-mutated', dict(sig), hist, dict(why='argument lists changed'))
+                good = False
+                break
+            if isinstance(mr, tuple):
+                chk.violation('corr:C11/shared', 'model-driver-error', {}, hist, dict(model=str(mr)), failing_input=False)
+                good = False
+                break
+            dyadic = st['kind'] in ('valid', 'complete', 'full', 'maybe-unbalanced')
+            if ir[0] == 'exc':
+                chk.violation('oracle:no_exception', 'shared-exception', dict(sig, exc=ir[1]), hist, dict(impl=ir, model=str(mr)[:300]))
+                good = False
+                break
+            if ir[0] == 'assert' or sx.is_err(mr):
+                if not (ir[0] == 'assert' and sx.is_err(mr)):
+                    chk.violation('corr:C11/shared', 'assert-disagreement', dict(sig, impl=ir[0]), hist,
+                                  dict(impl=str(ir)[:300], model=str(mr)[:300]),
+                                  failing_input=(ir[0] == 'assert' and st['kind'] in ('valid', 'complete', 'full') and st['op'] != 'balanced')
+                                  or (ir[0] == 'assert' and st['op'] == 'balanced' and st['kind'] in ('full', 'complete')))
+                    good = False
+                    break
+                chk.count('shared:step-rejected-by-both')
+                continue
+            chk.traces += 1
+            o = ir[1]
+            why = None
+            diff = []
+            if st['op'] == 'balanced':
+                mw = [sx.q(x) for x in mr[0]]
+                m = is_complete(st['levels'])
+                if dyadic:
+                    why, _ = moments_why(g, o['weights'], (2 * m - 1) if (m and m >= 1) else 1)
+                if not why and o['again'] != o['weights']:
+                    why = 'two consecutive get_weights calls differ'
+                if not why and dyadic and o['grid'] != g:
+                    why = 'tree grid differs from the given grid'
+                if not close(mw, o['weights'], tol_of(g)):
+                    diff.append('weights')
+            elif st['op'] == 'tree':
+                if o['g0'] is not None and dyadic and st['kind'] != 'maybe-unbalanced' and (o['g0'] != g or o['l0'] != st['levels']):
+                    why = 'init_tree does not reproduce the given grid/levels'
+                if not why and dyadic:
+                    it = iter(o['g1'])
+                    if not all(any(x == y for y in it) for x in g):
+                        why = 'forcing the full tree dropped or reordered given points'
+                m0 = [[sx.q(x) for x in mr[0][0]], mr[0][1]]
+                m1 = [[sx.q(x) for x in mr[1][0]], mr[1][1]]
+                if o['g0'] is not None and m0 != [o['g0'], o['l0']]:
+                    diff.append('init_tree grid/levels')
+                if m1 != [o['g1'], o['l1']]:
+                    diff.append('forced grid/levels')
+                if o['other_g1'] != o['g1']:
+                    diff.append('second wrapper of the singleton sees another tree')
+            else:
+                mw = [sx.q(x) for x in mr[3]]
+                consistent = c['variant'][2] == 1 or not any(z >= 2 for z in o['sizes'])
+                if dyadic and consistent:
+                    why, _ = moments_why(o['grid'], o['weights'], 1)
+                if not why and dyadic:
+                    why = containers_why(o['containers'])
+                if [sx.q(x) for x in mr[0]] != o['grid'] or mr[1] != o['levels']:
+                    diff.append('forced grid/levels')
+                if mr[2] != o['sizes']:
+                    diff.append('container sizes')
+                if not close(mw, o['weights'], tol_of(o['grid'])):
+                    diff.append('weights')
+                if model_containers(mr[5]) != o['containers']:
+                    diff.append('container attributes')
+            if why:
+                chk.violation('oracle:shared_state', 'shared-step-inconsistent', dict(sig), hist, dict(why=why))
+            if diff:
+                chk.violation('corr:C11/shared', 'shared-step-differs', dict(sig, observable=','.join(diff)), hist,
+                              dict(differs=diff, property_predicate=why or 'holds on this step', impl=str(o)[:600], model=str(mr)[:600]),
+                              failing_input=bool(why))
+            if why or diff:
+                good = False
+                break
+        if good:
+            keys.append(json_key_any(c))
+    chk.record_cases(len(mcases), keys, 'objects alive side by side in one process: one BalancedExtrapolationGrid re-used for several trees, two '
+                     'GridBinaryTree wrappers (singleton instance; use_caching off/on), an ExtrapolationGrid with forced balancing; 3-6 '
+                     'interleaved requests, each compared with the model (a pure function of the request) and the oracle; '
+                     'non-trivial = whole history agreed', [])
+
+
+# ----------------------------------------------------------------------------------------------------- returned-object aliasing of the wrappers
+def impl_alias(case):
+    """overwrite what compute_1D_quad_weights returned, ask again for the same grid: the answer must not contain the sentinel"""
+    from sparseSpACE.Extrapolation import SliceGrouping, SliceVersion, SliceContainerVersion
+    from sparseSpACE.Grid import GlobalRombergGrid, GlobalBalancedRombergGrid
+    grid = _fl(case['grid'])
+    levels = list(case['levels'])
+    if case['wrapper'] == 'balanced':
+        gg = GlobalBalancedRombergGrid([grid[0]], [grid[-1]])
+    else:
+        g, s, c = case['variant']
+        gg = GlobalRombergGrid([grid[0]], [grid[-1]], do_cache=bool(case['do_cache']), slice_grouping=SliceGrouping(g),
+                               slice_version=SliceVersion(s), container_version=SliceContainerVersion(c))
+
+    def run():
+        w1 = gg.compute_1D_quad_weights(list(grid), grid[0], grid[-1], 0, grid_levels_1D=list(levels))
+        first = [sx.rat(float(x)) for x in w1]
+        for i in range(len(w1)):
+            w1[i] = 12345.0
+        w2 = gg.compute_1D_quad_weights(list(grid), grid[0], grid[-1], 0, grid_levels_1D=list(levels))
+        return dict(first=first, second=[sx.rat(float(x)) for x in w2])
+    return _guard(run)
+
+
+def check_alias(chk, cases, impl=None):
+    if impl is None:
+        impl = run_impl(impl_alias, cases, limit=120)
+    keys = []
+    for c, (st, r) in zip(cases, impl):
+        chk.count('alias:%s,do_cache=%s' % (c['wrapper'], c.get('do_cache')))
+        sig = dict(wrapper=c['wrapper'], do_cache=bool(c.get('do_cache')))
+        if st != 'ok' or r[0] != 'ok':
+            if c['kind'] in ('valid', 'complete', 'full'):
+                chk.violation('oracle:no_exception', 'alias-exception', dict(sig), c, dict(impl=str(r)[:300]))
+            continue
+        chk.traces += 1
+        o = r[1]
+        if o['second'] != o['first']:
+            chk.violation('oracle:result_not_aliased', 'result-aliases-internal-state', dict(sig), c,
+                          dict(why='the list returned by compute_1D_quad_weights is the cache entry itself: after the caller overwrote it, the '
+                                   'next call for the same grid returns the overwritten values (sum %.6g instead of %s)'
+                                   % (float(sum(o['second'])), F(*c['grid'][-1]) - F(*c['grid'][0])),
+                               first=[float(x) for x in o['first']][:12], second=[float(x) for x in o['second']][:12]))
+        keys.append(json_key_any(c))
+    chk.record_cases(len(cases), keys, 'returned-object aliasing: the weight list returned by the Grid.py wrappers is overwritten with a sentinel and '
+                     'the same grid is requested again (do_cache on/off)', [])
+
+
 IMPL = {}
 
 
@@ -314,7 +889,7 @@ def impl_any(tagged):
 
 
 IMPL.update(sliced=impl_sliced, support=impl_support, balanced=impl_balanced, tree=impl_tree, factory=impl_factory,
-            glob=impl_global)
+            glob=impl_global, hist=impl_hist, shared=impl_shared, alias=impl_alias)
 
 
 def run_all_impl(parts):
@@ -349,11 +924,11 @@ def moments_why(grid, weights, maxdeg):
     a, b = grid[0], grid[-1]
     if len(weights) != len(grid):
         return 'number of weights %d != number of grid points %d' % (len(weights), len(grid)), 'length'
-    scale = max(abs(a), abs(b), 1)
+    scale = max(abs(a), abs(b))          # purely relative: no absolute constants (tiny / huge / far-away intervals)
     for k in range(0, maxdeg + 1):
         got = sum(w * x ** k for w, x in zip(weights, grid))
         want = (b ** (k + 1) - a ** (k + 1)) / (k + 1)
-        if abs(got - want) > F(1, 10 ** 9) * (b - a) * scale ** k * (1 + abs(a) + abs(b)):
+        if abs(got - want) > F(4, 10 ** 9) * (b - a) * scale ** k * (1 + (abs(a) + abs(b)) / (b - a)):
             what = 'sum' if k == 0 else ('first-moment' if k == 1 else 'degree')
             return ('sum_i w_i x_i^%d = %s (%.12g) but the integral of x^%d over [%s,%s] is %s (%.12g)'
                     % (k, got, float(got), k, a, b, want, float(want))), what
@@ -393,7 +968,7 @@ def check_sliced(chk, cases, impl=None):
     mcases, idx = [], []
     for i, c in enumerate(cases):
         for j, v in enumerate(c['variants']):
-            mcases.append((0, [v[0], v[1], v[2], v[3], qgrid(c), c['levels']]))
+            mcases.append((5, [v[0], v[1], v[2], v[3], qgrid(c), c['levels']]))     # sub 5: the pipeline on container OBJECTS
             idx.append((i, j))
     mres = run_model(11, mcases, nproc=16)
     keys, samples = [], []
@@ -438,6 +1013,14 @@ def check_sliced(chk, cases, impl=None):
             diff.append('container sizes')
         if not close(mw, o['weights'], tol):
             diff.append('weights')
+        # container objects: attributes left_point / right_point / max_level / minimal_step_width and the slices, compared exactly
+        chk.count('containers:max_size=%s' % ('1' if max(o['sizes']) == 1 else ('2..4' if max(o['sizes']) <= 4 else ('8..32' if max(o['sizes']) <= 32 else '>=64'))))
+        cwhy = containers_why(o['containers'])
+        if cwhy:
+            chk.violation('oracle:container_endpoints', 'container-attributes-inconsistent', dict(sig), one,
+                          dict(why=cwhy, containers=[[str(x) for x in ct[0] + ct[1]] + [len(ct[4])] for ct in o['containers']][:20]))
+        if model_containers(mr[5]) != o['containers']:
+            diff.append('container attributes')
         # verified checker: the keys of the model's weight dictionary are exactly the grid points (weights aligned with the grid)
         chk.count('checker:dict_keys_equal_grid')
         if [sx.q(x) for x in mr[4]] != mgrid:
@@ -450,6 +1033,10 @@ def check_sliced(chk, cases, impl=None):
             given = qgrid(c)
             if not set(given) <= set(o['grid']) or o['grid'] != sorted(set(o['grid'])):
                 why, what = 'forced balancing dropped or reordered points', 'grid'
+            elif not why:
+                oc = one_child_points(o['grid'], o['levels'])
+                if oc:
+                    why, what = 'after forced balancing the points %s still have exactly one child' % [str(x) for x in oc[:4]], 'grid'
         if why:
             chk.violation('oracle:weights_consistent', 'sliced-weights-inconsistent', dict(sig, what=what), one,
                           dict(why=why, weights=[str(w) for w in o['weights']][:40], model_weights=[str(w) for w in mw][:40]))
@@ -490,8 +1077,10 @@ def check_sliced(chk, cases, impl=None):
                 want = sum(w * (3 + 2 * x) for w, x in zip(o['weights'], o['grid']))
                 exact = 3 * (b_ - a_) + (b_ * b_ - a_ * a_)
                 consistent = sig['container'] == 'ROMBERG_DEFAULT' or not sig['multi_slice_container']
-                bad_corr = abs(v1 - want) > 10 * tol
-                bad_prop = consistent and (abs(v1 - exact) > 100 * tol or abs(v0 - exact) > 100 * tol or abs(err - abs(v1 - exact)) > 100 * tol)
+                fs = 3 + 2 * max(abs(a_), abs(b_))          # magnitude of the integrand 3 + 2x on the interval (relative comparison)
+                bad_corr = abs(v1 - want) > 10 * tol * fs
+                bad_prop = consistent and (abs(v1 - exact) > 100 * tol * fs or abs(v0 - exact) > 100 * tol * fs
+                                           or abs(err - abs(v1 - exact)) > 100 * tol * fs)
                 if bad_corr or bad_prop:
                     chk.violation('corr:C11/integrate' if not bad_prop else 'oracle:integrate_linear', 'integrate-differs', dict(sig), one,
                                   dict(integrate=float(v1), sum_w_f=float(want), exact=float(exact), first_call=float(v0), reported_error=float(err)),
@@ -503,9 +1092,11 @@ def check_sliced(chk, cases, impl=None):
                                 container_sizes=o['sizes'], weights_impl=[float(w) for w in o['weights']],
                                 weights_model=[str(w) for w in mw]))
     chk.record_cases(len(mcases), keys,
-                     'sliced Romberg: random dyadic refinement trees (depth<=7, 3..129 points, 8 intervals) x grouping x slice '
-                     'version x container version x forced balancing, plus malformed inputs; non-trivial = accepted by both sides '
-                     'with >= 4 grid points; distinct by (grid, levels, variant)', samples)
+                     'sliced Romberg: random dyadic refinement trees (depth<=7, 3..129 points; a few with 200..1025 points incl. the complete '
+                     'grid of depth 10; complete grids with one point removed), 8 offsets x 8 lengths x 6 binary scales, x grouping x slice '
+                     'version x container version x forced balancing, plus malformed inputs; compared: grid, levels, container sizes, the '
+                     'container objects with their attributes, weights; non-trivial = accepted by both sides with >= 4 grid points; '
+                     'distinct by (grid, levels, variant)', samples)
 
 
 def check_support(chk, cases, impl=None):
@@ -710,9 +1301,14 @@ def gen_global(rng, tier, wrapper=None):
         a = F(*s1[d][0]) + rng.choice([0, 0, 1, -1])
         s2.append([[a.numerator, a.denominator], [L.numerator, L.denominator]])
     steps = [s1, s2, s1] if rng.random() < 0.8 else [s1, s2, ivs(), s1]
+    sc = rng.choice(SCALES)        # axis (d): the whole history on intervals scaled by 2^sc (cache keys, thresholds)
+    if sc:
+        f2 = F(2) ** sc
+        steps = [[[[(F(*iv[0]) * f2).numerator, (F(*iv[0]) * f2).denominator], [(F(*iv[1]) * f2).numerator, (F(*iv[1]) * f2).denominator]]
+                  for iv in st] for st in steps]
     variant = list(rng.choice([(g, sv, c) for g in (1, 2, 3) for sv in (1, 2) for c in (1, 1, 4)]))
     return dict(kind='global', wrapper=wrapper, dim=dim, trees=[[list(x) for x in t] for t in trees], depths=depths,
-                steps=steps, variant=variant)
+                steps=steps, variant=variant, do_cache=rng.random() < 0.75, scale=sc)
 
 
 def check_global(chk, cases, impl=None):
@@ -735,7 +1331,9 @@ def check_global(chk, cases, impl=None):
     keys, samples = [], []
     for i, c in enumerate(cases):
         st, r = impl[i]
-        chk.count('global:%s:d=%d' % (c['wrapper'], c['dim']))
+        chk.count('global:%s:d=%d%s' % (c['wrapper'], c['dim'], '' if c['wrapper'] == 'balanced' else ',do_cache=%s' % bool(c.get('do_cache', True))))
+        chk.count('global:steps=%s' % ('<=4' if len(c['steps']) <= 4 else '>50'))
+        chk.count('global:scale=2^%s' % c.get('scale', 0))
         sig = dict(wrapper=c['wrapper'], dim=c['dim'])
         if c['wrapper'] == 'romberg':
             sig.update(grouping=GROUPINGS[c['variant'][0]], slice=SLICES[c['variant'][1]], container=CONTAINERS[c['variant'][2]])
@@ -819,6 +1417,12 @@ GLOBAL_CORPUS = [
 ]
 
 
+# more than 50 distinct grids on one object (GlobalRombergGrid.initialize_grid empties the weight cache above 50 entries), then the
+# first grids again
+GLOBAL_CORPUS.append(dict(kind='global', wrapper='romberg', dim=1, trees=[[[1, 2], [2, 1], [3, 2]]], depths=[2],
+                          steps=[[[[0, 1], [k, 8]]] for k in range(1, 56)] + [[[[0, 1], [1, 8]]], [[[0, 1], [55, 8]]], [[[0, 1], [2, 8]]]],
+                          variant=[3, 1, 1], do_cache=True))
+
 # exemplar of the known finding (kept first in the corpus)
 SIMPSON_EXEMPLAR = dict(kind='valid', grid=[[0, 1], [1, 2], [1, 1]], levels=[0, 1, 0], variants=[[2, 1, 4, 0]])
 
@@ -832,6 +1436,29 @@ CORPUS = [
     dict(kind='complete', grid=[[k, 8] for k in range(9)], levels=[0, 3, 2, 3, 1, 3, 2, 3, 0], variants=[list(v) for v in ALL_VARIANTS]),
     dict(kind='two-points', grid=[[0, 1], [1, 1]], levels=[0, 0], variants=[list(v) for v in ALL_VARIANTS]),
 ]
+
+
+# fixed histories (always run first)
+HIST_CORPUS = [
+    # GROUPED_OPTIMIZED: complete depth-3 grid without 1/8 (six equal slices -> 4 + 2), then its mirror image, then a scaled copy
+    dict(kind='hist', variants=[[3, 1, 1, 0]], steps=[
+        dict(obj=0, kind='valid', grid=[[0, 1], [1, 4], [3, 8], [1, 2], [5, 8], [3, 4], [7, 8], [1, 1]], levels=[0, 2, 3, 1, 3, 2, 3, 0],
+             argtype='list', obs=['weights_twice', 'container_getters'], reuse_args_of=None),
+        dict(obj=0, kind='valid', grid=[[0, 1], [1, 8], [1, 4], [3, 8], [1, 2], [5, 8], [3, 4], [1, 1]], levels=[0, 3, 2, 3, 1, 3, 2, 0],
+             argtype='tuple', obs=['integrate', 'scribble'], reuse_args_of=None),
+        dict(obj=0, kind='valid', grid=[[2, 1], [5, 2], [11, 4], [3, 1], [13, 4], [7, 2], [15, 4], [4, 1]], levels=[0, 2, 3, 1, 3, 2, 3, 0],
+             argtype='npgrid', obs=['getters'], reuse_args_of=None)]),
+    # two objects with different options interleaved, the same argument objects handed to both
+    dict(kind='hist', variants=[[2, 1, 1, 0], [1, 2, 4, 1]], steps=[
+        dict(obj=0, kind='valid', grid=[[0, 1], [1, 2], [5, 8], [3, 4], [1, 1]], levels=[0, 1, 3, 2, 0], argtype='list', obs=[], reuse_args_of=None),
+        dict(obj=1, kind='valid', grid=[[0, 1], [1, 2], [5, 8], [3, 4], [1, 1]], levels=[0, 1, 3, 2, 0], argtype='list', obs=['weights_twice'],
+             reuse_args_of=0),
+        dict(obj=0, kind='complete', grid=[[k, 8] for k in range(9)], levels=[0, 3, 2, 3, 1, 3, 2, 3, 0], argtype='list', obs=['integrate'],
+             reuse_args_of=None)]),
+]
+
+# exemplar of the known finding C11-wrapper-cache-aliases-result
+ALIAS_EXEMPLAR = dict(kind='valid', grid=[[0, 1], [1, 2], [1, 1]], levels=[0, 1, 0], wrapper='romberg', do_cache=True, variant=[1, 1, 1])
 
 
 def run(chk):
@@ -866,6 +1493,30 @@ def run(chk):
             c['variants'] = [list(v) for v in rng.sample(ALL_VARIANTS, 6)]
         c['wrapper'] = rng.random() < 0.3 and c['kind'] in ('valid', 'complete')
         cases.append(c)
+    # sizes beyond the usual ones (axis h): > 200 and > 1024 points, a complete grid of depth 10 (one container of 1024 slices,
+    # K = 10), long runs of equal slices that are not powers of two
+    for depth, pr, vs in ([(8, 0.95, [(1, 1, 1, 0), (3, 1, 1, 0), (2, 2, 1, 0)]), (9, 0.9, [(3, 1, 1, 0), (3, 2, 4, 0)]),
+                          (10, 1.0, [(2, 1, 1, 0), (3, 2, 1, 0)]), (10, 0.93, [(1, 1, 1, 0), (3, 1, 1, 1)])]
+                         + ([(11, 0.9, [(3, 1, 1, 0), (1, 1, 1, 0)]), (8, 1.0, [list(v) for v in ALL_VARIANTS])] if not chk.quick else [])):
+        c = tree_case(rng, chk.tier, depth=depth, p=pr)
+        c['variants'] = [list(v) for v in vs]
+        c['wrapper'] = False
+        cases.append(c)
+    # complete grid with one point removed / one cell refined: runs of 6, 12, 14 ... equal slices (GROUPED_OPTIMIZED splits 4+2, 8+4 ...)
+    for depth in (3, 4, 4, 5):
+        n = 2 ** depth
+        t = rand_tree(rng, depth, 1.0)
+        drop = rng.choice([1, n - 1, rng.choice([k for k in range(1, n) if k % 2 == 1])])
+        t = [(k, l) for (k, l) in t if k != drop]
+        a, L = interval(rng)
+        cases.append(dict(kind='valid', grid=[[x.numerator, x.denominator] for x in [a] + [a + L * k / n for k, _ in t] + [a + L]],
+                          levels=[0] + [l for _, l in t] + [0], variants=[list(v) for v in ALL_VARIANTS], wrapper=False))
+    for c in cases:
+        g = qgrid(c)
+        chk.count('sliced:scale=' + scale_key(g[0], g[-1] - g[0]))
+        chk.count('sliced:points=%s' % ('<=9' if len(g) <= 9 else ('10..64' if len(g) <= 64 else ('65..200' if len(g) <= 200 else ('201..1024' if len(g) <= 1024 else '>1024')))))
+        for v in c['variants']:
+            chk.count('sliced:variant=%s/%s/%s/force=%d' % (GROUPINGS[v[0]][:5], SLICES[v[1]][:4], CONTAINERS[v[2]][:4], v[3]))
     # --- support sequences
     sc = [tree_case(rng, chk.tier) for _ in range(chk.n(120, 2000))]
     sc += [malform(rng, tree_case(rng, chk.tier)) for _ in range(chk.n(20, 300))]
@@ -886,8 +1537,17 @@ def run(chk):
             if c['kind'] == 'two-points' or max(c['levels']) == 0:
                 c = tree_case(rng, chk.tier, kind='full', full=True)
         bc.append(c)
+    # depths beyond the usual ones (axis h): sparse full trees of depth 8..10, the complete tree of depth 7 (degree 13)
+    for depth, pr in [(8, 0.3), (9, 0.25), (10, 0.2), (12, 0.1), (7, 1.0), (8, 1.0), (9, 1.0)] + ([(10, 1.0), (14, 0.1)] if not chk.quick else []):
+        if pr >= 1.0:
+            bc.append(tree_case(rng, chk.tier, kind='complete', full=True, depth=depth, p=pr))
+        else:
+            bc.append(tree_to_case(rng, deep_full_tree(rng, depth, pr), depth, 'full'))
+    for c in bc:
+        chk.count('balanced:max_level=%s' % ('<=3' if max(c['levels']) <= 3 else ('4..6' if max(c['levels']) <= 6 else '>=7')))
     # --- binary tree
     tc = [tree_case(rng, chk.tier) for _ in range(chk.n(200, 5000))]
+    tc += [tree_case(rng, chk.tier, depth=d_, p=p_) for d_, p_ in [(10, 0.92), (11, 0.85)]]      # several hundred nodes
     tc += [malform(rng, tree_case(rng, chk.tier)) for _ in range(chk.n(30, 500))]
     # --- weight factory
     fc = []
@@ -897,7 +1557,21 @@ def run(chk):
                        version=rng.choice([1, 1, 2, 3]), m=rng.randrange(0, 10)))
     # --- Grid.py wrappers as histories on one object
     gc = list(GLOBAL_CORPUS) + [gen_global(rng, chk.tier) for _ in range(chk.n(150, 2500))]
-    impl = run_all_impl([('sliced', cases), ('support', sc), ('balanced', bc), ('tree', tc), ('factory', fc), ('glob', gc)])
+    # --- histories on one ExtrapolationGrid object / two interleaved objects
+    hc = list(HIST_CORPUS) + [gen_hist(rng, chk.tier) for _ in range(chk.n(260, 3000))]
+    # --- shared state: tree singleton, balanced grid re-use, forced balancing, side by side in one process
+    shc = [gen_shared(rng, chk.tier) for _ in range(chk.n(120, 1500))]
+    # --- returned-object aliasing of the Grid.py wrappers
+    ac = []
+    for _ in range(chk.n(24, 200)):
+        wrapper = rng.choice(['romberg', 'romberg', 'balanced'])
+        c = tree_case(rng, chk.tier, kind='full', full=True) if wrapper == 'balanced' else tree_case(rng, chk.tier)
+        if len(c['grid']) < 3:
+            continue
+        ac.append(dict(c, wrapper=wrapper, do_cache=rng.random() < 0.6, variant=list(rng.choice([(g, sv, 1) for g in (1, 2, 3) for sv in (1, 2)]))))
+    ac = [ALIAS_EXEMPLAR] + ac
+    impl = run_all_impl([('sliced', cases), ('support', sc), ('balanced', bc), ('tree', tc), ('factory', fc), ('glob', gc),
+                         ('hist', hc), ('shared', shc), ('alias', ac)])
     lap('implementation')
     check_sliced(chk, cases, impl['sliced'])
     lap('sliced')
@@ -906,10 +1580,15 @@ def run(chk):
     check_tree(chk, tc, impl['tree'])
     check_factory(chk, fc, impl['factory'])
     check_global(chk, gc, impl['glob'])
+    lap('others')
+    check_hist(chk, hc, impl['hist'])
+    check_shared(chk, shc, impl['shared'])
+    check_alias(chk, ac, impl['alias'])
+    lap('histories')
     # a broken translation / equivalence is a broken proof obligation; reported without failing input only when the
     # correspondence and the oracles above found no concrete input on which the implementation violates the property
     gen.finish_gen(chk, tinfo, gen_problem)
-    lap('others')
+    lap('gen')
 
 
 def replay(chk, rep):
@@ -918,6 +1597,12 @@ def replay(chk, rep):
     sub = chk
     if c.get('kind') == 'global':
         check_global(sub, [c])
+    elif c.get('kind') == 'hist':
+        check_hist(sub, [c])
+    elif c.get('kind') == 'shared':
+        check_shared(sub, [c])
+    elif 'do_cache' in c and 'wrapper' in c and 'steps' not in c:
+        check_alias(sub, [c])
     elif 'variants' in c:
         check_sliced(sub, [dict(c, wrapper=True)])
     elif 'version' in c:
